@@ -15,7 +15,9 @@ EXTENDS Integers, Sequences, TLC, Json, IOUtils
 
 Parsers   == {"parse_typed", "parse_auto", "plugin_parse", "plugin_validate", "field_parse", "header_parse",
               "extract_block", "tokenise", "parse_with_errors", "legacy_extract", "extract_block4", "util_parse"}
-OnMessage == {"serialise", "validate_full", "validate_stop", "validate_message", "to_json", "field_serialise", "header_display"}
+OnMessage == {"serialise", "validate_full", "validate_stop", "validate_message", "to_json", "field_serialise", "header_display",
+              \* the auto-detected wrapper: its own validate, its JSON form, its type and its 30 typed accessors
+              "wrapper_validate", "wrapper_to_json", "wrapper_accessors"}
 Always    == {"tag_util", "scale"}   \* tag normalisation (total on any string); "scale" = one size-ladder measurement
 OnJson    == {"from_json", "publish"}
 OnError   == {"display", "debug_report", "brief_message", "format_with_context"}
@@ -49,7 +51,7 @@ Call ==
                      \cup (IF ~total THEN {E.res \o ":" \o E.op \o ":" \o E.where} ELSE {})
        /\ msg'  = IF E.op \in Parsers \cup {"from_json"} THEN (E.res = "ok") ELSE msg
        /\ err'  = IF E.op \in Parsers \cup OnJson THEN (E.res = "err") ELSE err
-       /\ json' = IF E.op = "to_json" THEN (E.res = "ok") ELSE json
+       /\ json' = IF E.op \in {"to_json", "wrapper_to_json"} THEN (E.res = "ok") ELSE json
   /\ UNCHANGED <<run, results>>
 
 End == /\ IsEvent("end")
